@@ -157,7 +157,7 @@ def source_tie(rundir, wanted):
         return dict(ok=False, failed=["translator"], log="lib/srcgen.py could not translate /repo's sources: %s" % e, theorems=names, assumptions=[], gen_sha=None)
     gen += "".join("(* NOT TRANSLATED: %s: %s *)\n" % (k, v.replace("*)", "* )")[:400]) for k, v in sorted(terrs.items()))
     h = hashlib.sha256(gen.encode() + tie_txt.encode())
-    for v in ("Base_Bytes.v", "Spec_SHA.v", "Spec_Base64.v", "Spec_Base32.v", "Spec_Base36.v", "Model_Sha1Transform.v", "Model_Sha2Ctx.v", "Model_Otp.v", "Base_Result.v"):
+    for v in ("Base_Bytes.v", "Spec_SHA.v", "Spec_Base64.v", "Spec_Base32.v", "Spec_Base36.v", "Model_Sha1Transform.v", "Model_Sha2Ctx.v", "Model_Otp.v", "Base_Result.v", "Model_Hmac.v"):
         h.update(open(os.path.join(COQ, v), "rb").read())
     cdir = os.path.join(CACHE, "tie"); os.makedirs(cdir, exist_ok=True)
     cfile = os.path.join(cdir, h.hexdigest()[:24] + ".json")
